@@ -182,9 +182,41 @@ def oracle_L(toks):
     return " ; ".join(outs)
 
 
+def oracle_H(toks):
+    """readers and a writer interleaved over one shared buffer: every read / view / end() is judged against the
+    buffer's CURRENT contents (everything written so far), whenever the reader was constructed"""
+    buf, curs, outs = b"", [], []
+    for tok in toks:
+        f = tok.split(":")
+        if f[0] == "w":
+            buf += unhx(f[1]); o = "ok|%d" % len(buf)
+        elif f[0] == "wn":
+            buf += b"\0" * int(f[1]); o = "ok|%d" % len(buf)
+        elif f[0] == "new":
+            curs.append(0); o = "reader=%d" % (len(curs) - 1)
+        else:
+            k = int(f[1])
+            if k >= len(curs):
+                outs.append("bad"); continue
+            cur = curs[k]
+            if f[0] == "end":
+                o = "end=%d" % (1 if cur == len(buf) else 0)
+            else:
+                size = int(f[2])
+                if size > len(buf) - cur:
+                    o = "throw"
+                elif f[0] == "rd":
+                    o = "ok:" + (hx(buf[cur:cur + size]) if f[3] == "1" else "-"); curs[k] += size
+                else:
+                    o = "view:-:0:-" if size == 0 else "view:%d:%d:%s" % (cur, size, hx(buf[cur:cur + size])); curs[k] += size
+            o += "|%d" % curs[k]
+        outs.append(o)
+    return " ; ".join(outs)
+
+
 def oracle(case):
     t = case.split()
-    return {"T": oracle_T, "R": oracle_R, "F": oracle_F, "W": oracle_W, "L": oracle_L}[t[0]](t[1:])
+    return {"T": oracle_T, "R": oracle_R, "F": oracle_F, "W": oracle_W, "L": oracle_L, "H": oracle_H}[t[0]](t[1:])
 
 
 # ------------------------------------------------------------------------------ generators
@@ -378,6 +410,40 @@ def gen_L_random(r):
     return "L %d %s" % (cap0, " ".join(ops))
 
 
+def gen_H_exhaustive(maxlen):
+    """all histories over a small alphabet: two possible readers, writes before and after their construction"""
+    alpha = ["w:41", "w:4243", "new", "rd:0:1:1", "rd:0:2:1", "end:0", "vw:0:1", "rd:1:1:1", "end:1"]
+    for n in range(2, maxlen + 1):
+        for t in itertools.product(alpha, repeat=n):
+            if "new" in t and t.index("new") < n - 1 and any(x[0] == "w" for x in t):
+                yield "H " + " ".join(t)
+
+
+def gen_H_random(r):
+    """longer histories; writes after reader construction include ones that make the OwnedArray reallocate"""
+    ops, size, curs = [], 0, []
+    for _ in range(r.randint(3, 16)):
+        c = r.random()
+        if c < 0.30 or not curs and c < 0.5:
+            n = r.choice([1, 2, 3, 8, 9, 17, 33, 64, 100, 300, 700]) if r.random() < 0.5 else r.randint(0, 12)
+            if size + n > 4000: continue
+            ops.append("wn:%d" % n if r.random() < 0.15 else "w:" + hx(bytes((size + i) & 0xff for i in range(n))))
+            size += n
+        elif c < 0.45 and len(curs) < 4:
+            ops.append("new"); curs.append(0)
+        elif curs:
+            k = r.randrange(len(curs))
+            rem = size - curs[k]
+            d = r.random()
+            if d < 0.2: ops.append("end:%d" % k)
+            else:
+                s = r.choice([0, 1, rem, max(rem - 1, 0), rem + 1, r.randint(0, max(rem, 1)), min(rem, 8)])
+                if d < 0.75: ops.append("rd:%d:%d:1" % (k, s))
+                else: ops.append("vw:%d:%d" % (k, s))
+                if s <= rem: curs[k] += s
+    return "H " + " ".join(ops)
+
+
 def gen_W(r):
     ops = []
     total = 0
@@ -461,7 +527,7 @@ def differing(kind, a, b):
         fa, fb = split_T(a), split_T(b)
         ks = [k for k in ("raw", "enc", "calc", "dec", "end", "cur", "trunc", "fix", "re", "st") if fa.get(k) != fb.get(k)]
         return "+".join(ks) or "?"
-    if kind in ("R", "F", "L"):
+    if kind in ("R", "F", "L", "H"):
         sa, sb = a.split(" ; "), b.split(" ; ")
         for i in range(max(len(sa), len(sb))):
             x = sa[i] if i < len(sa) else ""
@@ -485,6 +551,8 @@ def case_units(case):
         return "T", units
     if t[0] in ("R", "F", "L"):
         return t[0] + " " + t[1], t[2:]
+    if t[0] == "H":
+        return "H", t[1:]
     return "W", t[1:]
 
 
@@ -524,7 +592,7 @@ def run(ctx):
         ctx.cov["source_fact_broken_first"] = first
         ctx.log("source-derived obligations broken (first failing: %s); all of PropertiesFacts.v counted as broken: %s\n  extracted facts:\n    %s"
                 % (first, ", ".join(bad_facts), "\n    ".join(ctx.cov.get("source_facts", []))))
-    model = ctx.extract(snippets=["conv_N.ml", "conv_Z.ml"])
+    model = ctx.extract(snippets=["conv_N.ml", "conv_Z.ml", "conv_nat.ml"])
     exe = ctx.cxx(["harness.cpp"], "harness", repo_sources=REPO_SRC, sanitize="asan",
                   opt=ctx.pick("-O0", "-O1"), timeout=900)
     if not model or not exe:
@@ -561,6 +629,8 @@ def run(ctx):
         add("fixed_huge", gen_F_huge(r, 16))
         add("fixed_random", [gen_F_random(r) for _ in range(ctx.pick(2000, 20000))])
         add("writer_raw", [gen_W(r) for _ in range(ctx.pick(300, 3000))])
+        add("shared_buffer_exhaustive", gen_H_exhaustive(ctx.pick(4, 5)))
+        add("shared_buffer_random", [gen_H_random(r) for _ in range(ctx.pick(1500, 15000))])
         add("lifetime_exhaustive", gen_L_exhaustive(ctx.pick(4, 5)))
         add("lifetime_random", [gen_L_random(r) for _ in range(ctx.pick(1500, 15000))])
     ctx.log("cases: %d %s" % (len(cases), mix))
@@ -597,6 +667,13 @@ def run(ctx):
             # non-trivial: >= 2 values of which one is variable-length, read back completely
             if len(items) >= 2 and any(v[0] != "raw" for _, v in items) and f.get("end", "").endswith("1"):
                 ctx.nontriv(c)
+        elif k == "H":
+            ops = [x.split(":")[0] for x in t[1:]]
+            for op in ops:
+                hist["ops"]["H:" + op] = hist["ops"].get("H:" + op, 0) + 1
+            # non-trivial: a write after a reader was constructed, followed by a successful read
+            if "new" in ops and any(o == "w" for o in ops[ops.index("new"):]) and "ok:" in ml.split("reader=")[-1]:
+                ctx.nontriv(c)
         elif k == "L":
             ops = [x.split(":")[0] for x in t[2:]]
             for op in ops:
@@ -628,12 +705,14 @@ def run(ctx):
                 "objects, into pre-filled destinations (stale content of equal, larger and smaller size, nested elements stale) and a "
                 "second time into the same destination objects, incl. every truncation point; raw reader histories (all to length %d over boundary and near-2^64 sizes for several buffer lengths, "
                 "plus random); FixedBufferWriter: all write/reserve size sequences (sizes 0..cap+1) to length 3 for capacities 0..16, "
-                "near-SIZE_MAX sizes, random; view lifetimes: all histories to length %d over {write, reserve+fill, getWrittenView (kept), "
+                "near-SIZE_MAX sizes, random; shared-buffer histories: a BufferWriter and up to 4 BufferReaders constructed at any point over the "
+                "writer's buffer, writes after reader construction incl. reallocating ones, then read/getView/end (all to length %d over "
+                "a small alphabet, plus random); view lifetimes: all histories to length %d over {write, reserve+fill, getWrittenView (kept), "
                 "check every kept view directly and through a BufferReader, destroy the writer, re-seat its buffer} for capacities 0..2 "
                 "plus random ones, every history ending with the writer destroyed and all views read; raw BufferWriter writes crossing "
                 "growth boundaries. non-trivial = typed: >=2 values incl. "
                 "a variable-length one, fully read back; reader/fixed writer: history with both an accepted and a rejected call; "
-                "raw writer: >= 2 writes; lifetimes: a non-empty view read after the writer is gone" % (len(tys), ctx.pick(2, 3), ctx.pick(4, 5)))
+                "raw writer: >= 2 writes; lifetimes: a non-empty view read after the writer is gone" % (len(tys), ctx.pick(2, 3), ctx.pick(4, 5), ctx.pick(4, 5)))
     for c in cases[:1] + cases[len(cases) // 2:len(cases) // 2 + 2]:
         ctx.sample({"case": c[:300], "model_and_impl": mlines[cases.index(c)][:300]})
 
